@@ -96,6 +96,10 @@ def main(ctx, replay=None):
         raise MachineryError("too few life-cycle behaviours from the simulator")
     # one behaviour with the command line in every tier
     behaviours.append(({"seed": "1", "cwd": "dir_named_like_system"}, [["CliRun", "A"], ["CliRun", "A"]]))
+    # results written several times, and by two calculators of one process in turn
+    behaviours.append(({"seed": "1", "cwd": "junk"}, [["Construct", 1, "A"], ["WriteOutput", 1], ["WriteOutput", 1], ["Read", 1, "tp_vp"], ["WriteOutput", 1]]))
+    behaviours.append(({"seed": "2", "cwd": "empty"}, [["Construct", 1, "A"], ["Construct", 2, "C"], ["WriteOutput", 1], ["WriteOutput", 2], ["Write", 1, "tp", "cij"],
+                                                      ["Write", 2, "tp", "cij"], ["Write", 2, "tv", "p"], ["Write", 1, "tv", "p"]]))
     behaviours.append(({"seed": "0", "cwd": "shadow_data"}, [["Construct", 1, "A"], ["Write", 1, "tp", "cij"], ["WriteOutput", 1], ["CliRun", "A"]]))
     # the files at a path are replaced between two calculations: the second one is the calculation of the NEW content
     behaviours.append(({"seed": "2", "cwd": "junk"}, [["Construct", 1, "A"], ["Read", 1, "modulus_adiabatic"], ["Rewrite", "A", "C"], ["Construct", 2, "A"],
